@@ -94,7 +94,9 @@ let rec show_cst (b : Buffer.t) (k : cst) : unit =
 
 let cst_str k = let b = Buffer.create 256 in show_cst b k; Buffer.contents b
 
-let err_str = function EEof -> "eof" | EUnexpectedEof -> "ueof" | EInvalidType -> "type" | EPrefix -> "prefix"
+let err_str = function
+  | EEof -> "eof" | EUnexpectedEof -> "ueof" | EInvalidType -> "type" | EPrefix -> "prefix"
+  | EInvalidLength -> "len" | EInvalidCode -> "code"
 
 let show_r = function
   | ROk k -> "ok " ^ hexbytes (marshal k) ^ " " ^ cst_str k
